@@ -64,4 +64,9 @@ META = {
   "text": "Crash instants of a file-based store are finite per write sequence (every truncation length of the newest file, each half-done rotation / collection / rename), so they are enumerated; each image is opened by the real start-up path (initDataSet, TruncateGap, ParseRdbFile) and every byte served is compared with the byte function. Fault enumeration level.",
   "note": "Assumes ordered writes (no torn older files). With verifyCrc a reader that refuses an un-finalised newest segment is accepted (refusing is not serving wrong bytes).",
  },
+ "C15": {
+  "technique": "stateful property-based testing (rapid, generated action sequences with a virtual clock and lost calls) against a reference lease model; the tool's own Lua is interpreted by a subset interpreter inside the double; plus a generated-configuration property for the renew/timeout ratio",
+  "text": "Interleavings of campaign/renew/resign by several real Election objects, arbitrary passage of (virtual) time and lost calls are generated as plain action sequences; mutual exclusion and the exact lease state are checked after every step against a 10-line reference model. Exploration level; the harness owns the order of calls and the clock.",
+  "note": "Decided at the Election API + configuration level (the cmd loop that stops syncing after a failed renewal is not driven); etcd-based election is outside the property's statement.",
+ },
 }
